@@ -52,7 +52,10 @@ def KNOWN_D18(sub, case, failure):
     Affects the tangent (never the stress) of every model built on them, also op-by-op."""
     d = failure.data
     return bool(failure.clause in ('tangent', 'tangent-action') and d.get('fusion_only') is False and
-                d.get('uses_tensor_functions') and d.get('relgap') is not None and d['relgap'] < 1e-4)
+                d.get('uses_tensor_functions') and d.get('relgap') is not None and d['relgap'] < 1e-4 and
+                (d.get('spread', 0.0) > 1e-6 or 'seth' in str(d.get('model'))))
+    # for the logarithmic models a spherical tensor needs first derivatives only (the volumetric strain bypasses log_symm), so
+    # the unchanged tree is right there; the seth hill measure takes its volumetric part from pow_symm as well
 
 
 KNOWN_MATCH = {'D1': KNOWN_D1, 'D18': KNOWN_D18}
@@ -78,8 +81,9 @@ def tensor_function_gap(cfg, He, state):
     g = []
     for C_ in ts:
         w = onp.linalg.eigvalsh(0.5 * (C_ + C_.T))
-        g.append(min(w[1] - w[0], w[2] - w[1]) / w[2])
-    return float(min(g))
+        g.append((min(w[1] - w[0], w[2] - w[1]) / w[2], (w[2] - w[0]) / w[2]))
+    k = int(onp.argmin([a for a, _ in g]))
+    return float(g[k][0]), float(g[k][1])
 
 
 def make_cases(names):
@@ -92,7 +96,7 @@ def make_cases(names):
         hist = [{'dir': draw(st.lists(st.floats(-1, 1), min_size=4, max_size=4)), 'mag': draw(st.floats(0.5, 5.0)), 'dtrel': draw(gen.logfloat(-3, 3))}
                 for _ in range(nhist)]
         ev = {'dir': draw(st.lists(st.floats(-1, 1), min_size=4, max_size=4)), 'mag': draw(st.floats(0.2, 5.0)),
-              'mode': ['continue', 'back', 'random'][draw(st.integers(0, 2))], 'dtrel': draw(gen.logfloat(-3, 3)),
+              'mode': ['continue', 'back', 'random', 'spherical'][draw(st.integers(0, 3))], 'dtrel': draw(gen.logfloat(-3, 3)),
               'rot': draw(gen.angle()), 'strain_exp': draw(st.integers(-6, -1))}
         dk = draw(st.integers(0, 5))
         dH = draw(st.lists(st.floats(-1, 1), min_size=9, max_size=9))
@@ -141,6 +145,11 @@ def check(case):
     elif ev['mode'] == 'back' and last is not None:
         D = -last
     He = H + min(ev['mag'] * e0, 0.15) * D
+    if ev['mode'] == 'spherical':
+        # undeformed / pure dilation (optionally rotated below): the tensor functions see a multiple of the identity
+        a = 0.0 if ev['mag'] < 1.0 else min((ev['mag'] - 1.0) * e0, 0.1) * (1 if ev['dir'][0] >= 0 else -1)
+        He = a * onp.eye(3)
+        state = mats.library_initial_state(cfg, pr['pvec']).copy()
     if cfg.finite and cfg.family != 'j2':
         R = gen.rotz(ev['rot'])
         He = R @ (He + onp.eye(3)) - onp.eye(3)          # superposed rotation: non-symmetric displacement gradients
@@ -227,9 +236,10 @@ def check(case):
         for f in local:
             f.data['fusion_only'] = bool(ok[f.clause])
             f.data['uses_tensor_functions'] = gap is not None
-            f.data['relgap'] = gap
+            f.data['relgap'] = None if gap is None else gap[0]
+            f.data['spread'] = None if gap is None else gap[1]
         fails += local
-    classes = [case['model'], 'yielding' if yielding else 'not-yielding', 'hist%d' % len(case['hist']), 'dkind%d' % min(case['dkind'], 3)]
+    classes = [case['model'], 'yielding' if yielding else 'not-yielding', 'hist%d' % len(case['hist']), 'dkind%d' % min(case['dkind'], 3)] + (['spherical'] if ev['mode'] == 'spherical' else [])
     nt = bool(yielding or (cfg.family.startswith('visco') and len(case['hist']) > 0) or (cfg.finite and onp.linalg.norm(He) > 1e-4))
     return Result(fails, classes=classes, nontrivial=nt, inconclusive=incon, n_eval=3)
 
